@@ -21,6 +21,17 @@ AssertAny == Cer("ga", BaseReq)
 Register(u, rk) == Cer("mc", [BaseReq EXCEPT !.user = u, !.rk = rk])
 
 C19_Cfgs == { BaseCfg, [BaseCfg EXCEPT !.storeKind = "memory", !.disc = "forced"] }
+\* with the PRF capability on: an assertion that asks for a PRF evaluation on a credential without secrets fails AFTER
+\* its counter update was accepted
+C19_PrfCfgs == { [BaseCfg EXCEPT !.hmac = "withoutuv"] }
+PrfOne == [given |-> TRUE, eval |-> "one", byCred |-> <<>>, byCredGiven |-> FALSE]
+AssertPrfOn(id) == Cer("ga", [BaseReq EXCEPT !.allow = <<id>>, !.allowGiven = TRUE, !.prf = PrfOne])
+\* a ceremony whose k-th fallible store call fails with a status byte
+Failing(c, faults) == [c EXCEPT !.env = [c.env EXCEPT !.faults = faults]]
+C19_FailPairs == { <<AssertPrfOn("c1"), AssertOn("c1")>>, <<AssertPrfOn("c1"), AssertPrfOn("c1")>>,
+                   <<Failing(AssertOn("c1"), <<0, 40, 0>>), AssertOn("c1")>>, <<Failing(AssertOn("c1"), <<40, 0, 0>>), AssertOn("c1")>>,
+                   <<Failing(Register("u3", TRUE), <<40, 0, 0>>), Register("u4", TRUE)>>,
+                   <<Failing(Register("u3", TRUE), <<40, 0, 0>>), AssertOn("c1")>> }
 C19_Stores == { <<Cred("c1", "r1", "u1", Ctr(0, 5), "none"), Cred("c2", "r1", "u2", NoCtr, "none")>> }
 \* two concurrent ceremonies: assert/assert on one credential, assert/register, register/register
 C19_Pairs == { <<AssertOn("c1"), AssertOn("c1")>>, <<AssertOn("c1"), AssertOn("c2")>>, <<AssertOn("c1"), Register("u3", TRUE)>>,
